@@ -1042,6 +1042,13 @@ fn small_programs() -> Vec<(u16, Vec<u16>, bool, &'static str)> {
         // origin, the word there is not the assembled one (what `reset` puts back must be what runs)
         (0x3000, vec![0x31FF, 0x1261, 0x0FFD, 0xF025], false, "overwrite-origin"),
         (0x0000, vec![0x1021, 0x1021, 0x1021, 0xF025, 0x0000], false, "origin-zero"),
+        // a subroutine that never returns: it leaves user space (to 0xFFFF, to 0xFE00, below the
+        // origin) — `step` over the call must pause there like every other resuming command
+        (0x3000, vec![0x4801, 0xF025, 0x2201, 0xC040, 0xFFFF], false, "jsr-leave-ffff"),
+        (0x3000, vec![0x4801, 0xF025, 0x2201, 0xC040, 0xFE00], false, "jsr-leave-above"),
+        (0x3000, vec![0x4801, 0xF025, 0x2201, 0xC040, 0x2FFF], false, "jsr-leave-below"),
+        // … and a subroutine whose RET is stored at run time (`step out` looks for it in memory as it is)
+        (0x3000, vec![0x2005, 0x3003, 0x4801, 0xF025, 0x1261, 0x1261, 0xC1C0], false, "store-ret-ahead"),
         // the program stores a HALT / a JSR onto its own path: what the debugger does at that
         // address (refuse to run on, step over the call) depends on the word that is there NOW
         (0x3000, vec![0x2004, 0x3001, 0x1261, 0x1261, 0xF025, 0xF025], false, "store-halt-ahead"),
